@@ -742,8 +742,15 @@ pub fn gen_case(t: &mut Tape) -> Case {
         Chooser::Vector(v)
     };
     let skip_answers = t.chance(1, 4);
-    let multi_root = t.chance(1, 3);
-    Case { tree, workers, chooser, quit_at, skip_answers, multi_root }
+    Case { tree, workers, chooser, quit_at, skip_answers, multi_root: false }
+}
+
+/// The same cases with every top-level entry as a root of its own (a subcheck of its own, so that the
+/// single-root schedules stay exactly the ones that were generated before this dimension existed).
+pub fn gen_case_multi_root(t: &mut Tape) -> Case {
+    let mut c = gen_case(t);
+    c.multi_root = true;
+    c
 }
 
 /// Exhaustive enumeration of schedules with at most `p` preemptions for one
@@ -923,6 +930,8 @@ pub fn run(pc: &PropCtx) {
     let _ = saved_threads;
     let n = pc.tier.pick(2_500, 40_000);
     pc.run_tape("random_schedules", n, (64, 600), gen_case, check);
+    pc.run_tape("multi_root_schedules", n / 3, (64, 600), gen_case_multi_root, check);
+    pc.require_class("multi_root_schedules:two_or_more_directory_roots", n as u64 / 12);
     // bounded-exhaustive part
     let p = pc.tier.pick(2, 3);
     let cap = pc.tier.pick(1_500, 40_000);
